@@ -35,8 +35,10 @@ BlkF(d) == MkBlock(d, CatChunks(d), TRUE, TRUE, <<F("delta", 1), F("x86", 0), F(
 OneBlock(c) == [streams |-> <<MkStream(c, <<Blk(1, FALSE, FALSE, 0)>>, 0)>>]
 TwoTwo(c) == [streams |-> <<MkStream(c, <<BlkF(4), Blk(3, FALSE, TRUE, 0)>>, 4), MkStream(c, <<Blk(1, TRUE, FALSE, 0)>>, 0)>>]
 Empty(c) == [streams |-> <<MkStream(c, <<>>, 0)>>]
+Rich(c) == [streams |-> <<MkStream(c, <<Blk(5, TRUE, TRUE, 4), Blk(7, FALSE, FALSE, 0)>>, 8), MkStream(c, <<>>, 4), MkStream(c, <<Blk(6, TRUE, TRUE, 0)>>, 0)>>]
 BaseChecks == CASE BaseSet = "supported" -> {1, 4, 10} [] BaseSet = "tiny" -> {1} [] OTHER -> {1, 4, 10, 0, 2}
 BaseFiles == {OneBlock(c) : c \in BaseChecks} \cup {TwoTwo(c) : c \in BaseChecks} \cup {Empty(c) : c \in {1}}
+             \cup (IF BaseSet = "thorough" THEN {Rich(c) : c \in {1, 4, 10, 0}} ELSE {})
 
 (* ---- effects of a fault ---- *)
 US(f, s, T) == [f EXCEPT !.streams[s] = T]
@@ -209,7 +211,7 @@ RetDocumented == ret \in {"run", "STREAM_END", "FORMAT_ERROR", "OPTIONS_ERROR", 
 (* (G) one line per (file, fault) terminal state: the admissible return codes are collected by the replay *)
 Emit == (ret' # "run") =>
           PrintT(<<"PLAN", ToJson([base |-> [nstreams |-> Len(orig.streams), check |-> orig.streams[1].check,
-                                             nblocks |-> Len(orig.streams[1].blocks)],
+                                             nblocks |-> Len(orig.streams[1].blocks)],   \* identifies the base file within BaseFiles
                                    fault |-> fault, ret |-> ret', same |-> (out' = OrigMeaning /\ ~partial'),
                                    file |-> IF fault.kind = "none" THEN orig ELSE [streams |-> <<>>],
                                    fields |-> IF fault.kind = "none" THEN Fields(orig) ELSE <<>>])>>)
